@@ -60,6 +60,7 @@ type termScenario struct {
 	unregistered bool
 	notReady   bool
 	slowDetach bool // the attach-detach controller is slow: detaching is not part of the default history
+	slowPods   bool // pods use their whole grace period: a deleted pod disappears no earlier than its deletionTimestamp
 	first      string // "nodeclaim" | "node": which object the user / disruption deletes first
 }
 
@@ -224,6 +225,9 @@ func (t *termRun) envEvents() []action {
 	for _, n := range names {
 		n := n
 		if p := t.livePod(n); p != nil && p.DeletionTimestamp != nil && !t.spec[n].terminating {
+			if t.sc.slowPods && w.Clock.Now().Before(p.DeletionTimestamp.Time) {
+				continue
+			}
 			out = append(out, action{"pod-finished:" + n, func() {
 				w.EnvDelete(p)
 			}})
@@ -261,6 +265,30 @@ func (t *termRun) extraEvents() []action {
 	}
 	if t.sc.tgp != nil {
 		out = append(out, action{"clock-past-tgp", func() { w.Clock.Step(*t.sc.tgp + time.Second) }})
+		// jumps to the instants around every threshold of the statement: the node deadline D and, per pod grace period g,
+		// D-g (from when the pod may be deleted directly), plus one instant inside each window
+		if dl := t.currentDeadline(); dl != nil {
+			offs := map[time.Duration]bool{-time.Second: true, -500 * time.Millisecond: true, 0: true, time.Second: true}
+			for _, ps := range t.spec {
+				if ps.grace != nil {
+					g := time.Duration(*ps.grace) * time.Second
+					for _, o := range []time.Duration{-g - time.Second, -g, -g + time.Second, -g / 2} {
+						offs[o] = true
+					}
+				}
+			}
+			var sorted []time.Duration
+			for o := range offs {
+				sorted = append(sorted, o)
+			}
+			sort.Slice(sorted, func(i, j int) bool { return sorted[i] < sorted[j] })
+			for _, o := range sorted {
+				at := dl.Add(o)
+				if at.After(w.Clock.Now()) {
+					out = append(out, action{fmt.Sprintf("clock-to:deadline%+v", o), func() { w.Clock.Step(at.Sub(w.Clock.Now())) }})
+				}
+			}
+		}
 	}
 	if n := w.GetNode("n1"); n != nil {
 		out = append(out, action{"node-not-ready", func() {
